@@ -57,6 +57,36 @@ func runK5(r *rng, n int) {
 		emit("k5new => ok")
 		steps := 60 + r.intn(160)
 		deep := r.chance(1, 2)
+		// a scripted prelude in a quarter of the histories: a chain of directories four levels deep
+		// with a fid on every level and an open file at the bottom, then the top is renamed
+		var prelude []struct {
+			t uint8
+			v map[string]interface{}
+		}
+		if r.chance(1, 4) {
+			add := func(t uint8, v map[string]interface{}) {
+				prelude = append(prelude, struct {
+					t uint8
+					v map[string]interface{}
+				}{t, v})
+			}
+			add(72, map[string]interface{}{"Directory": uint64(0), "Name": "a", "Permissions": uint64(0755)})
+			add(110, map[string]interface{}{"fid": uint64(0), "newFID": uint64(1), "Names": []string{"a"}})
+			add(72, map[string]interface{}{"Directory": uint64(1), "Name": "b", "Permissions": uint64(0755)})
+			add(110, map[string]interface{}{"fid": uint64(1), "newFID": uint64(2), "Names": []string{"b"}})
+			add(72, map[string]interface{}{"Directory": uint64(2), "Name": "c", "Permissions": uint64(0755)})
+			add(110, map[string]interface{}{"fid": uint64(2), "newFID": uint64(3), "Names": []string{"c"}})
+			add(110, map[string]interface{}{"fid": uint64(3), "newFID": uint64(4), "Names": []string{}})
+			add(14, map[string]interface{}{"fid": uint64(4), "Name": "a", "OpenFlags": uint64(2), "Permissions": uint64(0644)})
+			add(110, map[string]interface{}{"fid": uint64(3), "newFID": uint64(5), "Names": []string{"a"}})
+			add(74, map[string]interface{}{"OldDirectory": uint64(0), "OldName": "a", "NewDirectory": uint64(0), "NewName": []string{"b", "c"}[r.intn(2)]})
+			for _, f := range []uint64{5, 3, 2, 1, 4} {
+				add(24, map[string]interface{}{"fid": f})
+			}
+			add(110, map[string]interface{}{"fid": uint64(2), "newFID": uint64(6), "Names": []string{"c", "a"}})
+			add(116, map[string]interface{}{"fid": uint64(4), "Offset": uint64(0), "Count": uint64(64)})
+			add(26, map[string]interface{}{"fid": uint64(5)})
+		}
 		paths := []map[uint64][]string{{}, {}} // per connection: a guess of each fid's path (stale after renames)
 		for i := 0; i < steps && done < n; i++ {
 			c := conns[r.intn(2)]
@@ -104,6 +134,9 @@ func runK5(r *rng, n int) {
 			case i < 4:
 				c = conns[i-2]
 				t, v = 104, map[string]interface{}{"fid": uint64(0), "Auth.Authenticationfid": uint64(0xffffffff)}
+			case i-4 < len(prelude):
+				c = conns[0]
+				t, v = prelude[i-4].t, prelude[i-4].v
 			case len(c.bound) == 0:
 				t, v = 104, map[string]interface{}{"fid": uint64(r.intn(3)), "Auth.Authenticationfid": uint64(0xffffffff)}
 			default:
